@@ -5,6 +5,9 @@ ALL = ["C%02d" % i for i in range(1, 21)]
 
 # id -> (level text, level note, technique)
 CLAIMED = {
+ "C11": ("Crash-point enumeration and post-restart equivalence are history properties and are NOT decided. Decided (package core): (H1) in WriteBlockWithState the head moves only after WriteBlock, state.Commit==nil, TrieDB().Commit for all three roots returned by that commit, and batch.Write==nil; canonical hash before head marker; (H2) tabled writers of the persistent canonical/head markers and tabled callers of insert/updateHeadBlock/WriteBlockWithState; (H3) in insertChain the write is dominated by the header-verification receive, Process==nil, ValidateState==nil, and every feasible path (path-sensitive enumeration within one iteration) from the receive to Process passes ValidateBody or the dead ErrUnknownParentState case; (H4) side chains written only after verifyAllSideChainBlocks==nil, whose checks cannot fail into a nil return.",
+         "Trusted: go/types + go/ssa; rawdb writers durable when they return.",
+         "dominance gates on write ordering, value-flow of the three roots, who-may-call confinement, path-sensitive enumeration of one loop iteration, failure-edge reachability"),
  "C08": ("That maintained totals equal a recomputation is a value property and is NOT decided. Decided (core/state, staking, consensus/ucon): (V1) tabled writers of the live validator map and statistics, UpdateValidator/CreateValidator adjust statistics with the right records under !StakeEqual, undo entries apply the opposite adjustment; (V2) every validator field the statistics read is compared by StakeEqual; (V3) every in-place change of a Stake/SelfStake amount derives from params.YOUToStake or is a tabled copy/decoder/aggregate; (V4) UpdateDelegation updates validator and delegator sides together, UpdateDelegator updates list and balance together; (V5) sortition reads GetStakeByKind.",
          "Trusted: go/types + go/ssa; tables in ycheck/rules_c08.go.",
          "who-may-call confinement, do/undo mirror with argument identity, field-read exhaustiveness, provenance of stake operands"),
